@@ -6,10 +6,10 @@ REPO="${VERIF_REPO:-/repo}"
 HERE="$(cd "$(dirname "$0")" && pwd)"
 case "$MODE" in
   asan|asanstrict)  SAN="-O1 -fsanitize=address,undefined -fno-sanitize-recover=undefined -fno-omit-frame-pointer" ;;
-  plain) SAN="-O2" ;;
+  plain) SAN="-O2 -DVERIF_MEMTRACK" ;;
   tsan)  SAN="-O1 -fsanitize=thread" ;;
 esac
 INC="-I$OUT/inc -I$REPO/include -I$REPO/include/erasurecode -I$REPO/include/xor_codes -I$REPO/include/rs_vand -I$REPO/include/isa_l"
 gcc -g -std=gnu99 -Wall -Wno-unused-function -DLIBERASURECODE_VERIF $SAN $INC -o "$OUT/drv" \
-   "$HERE"/drv.c "$HERE"/common.c "$HERE"/ops.c "$HERE"/suites*.c \
+   "$HERE"/drv.c "$HERE"/common.c "$HERE"/ops.c "$HERE"/memtrack.c "$HERE"/suites*.c \
    -L"$OUT" -l:liberasurecode.so.1 -l:libXorcode.so.1 -l:liberasurecode_rs_vand.so.1 -lz -ldl -lpthread -Wl,-rpath,"$OUT"
